@@ -236,6 +236,15 @@ func init() {
 		}
 		return false
 	})
+	H("Preload", func(fr *frame, args []value) value {
+		p := fr.i.path
+		d := unbox(args[1], "*badger.DB").(*kvDB)
+		w := []kvWrite{{key: keyBytes(args[2]), val: cloneBytes(args[3])}}
+		d.disk.version++
+		d.disk.ents = p.applyWritesV(d.disk.ents, w, d.disk.version)
+		p.env.effects = append(p.env.effects, effect{kind: "kv", disk: d.disk, writes: w})
+		return nil
+	})
 	H("RestoreBackup", func(fr *frame, args []value) value {
 		p := fr.i.path
 		file := concStr(args[1], "backup file")
@@ -283,6 +292,11 @@ func init() {
 		p := fr.i.path
 		p.sched.symbolic = true
 		p.sched.preempt = int(p.concInt(args[1], "preemptions"))
+		return nil
+	})
+	H("SymbolicMapOrder", func(fr *frame, args []value) value {
+		p := fr.i.path
+		p.sched.mapOrder = int(p.concInt(args[1], "map order budget"))
 		return nil
 	})
 	H("Yield", func(fr *frame, args []value) value {
